@@ -515,9 +515,9 @@ impl Check for C02 {
                         continue;
                     }
                     if !*th {
-                        out.mismatch(
+                        out.mismatch_any(
                             ctx,
-                            "c02_unprintable_leaf_printed",
+                            &sigs_for("c02_unprintable_leaf_printed", "c02_unprintable_leaf_printed", &t.env, d, t.used.contains_key("exclude")),
                             format!("{}: type of {} reaches a leaf JSON Schema cannot express, but {} printing returned a schema", name, name, m),
                             json!({"program": t.program, "parser": name, "type": d, "mode": m, "returned": raw}),
                         );
@@ -710,6 +710,18 @@ impl Check for C02 {
                         // root cause: members of an allOf that could not be merged keep "additionalProperties": false
                         // each, so keys declared by one member are rejected by the others.  Decided by repairing
                         // exactly that in the emitted schema and judging the document again.
+                        // the validators' (and therefore the schemas') `${number}` grammar is narrower than TypeScript's
+                        // (listed finding tpl_number_grammar): is the document a member only by TypeScript's reading?
+                        let narrow_tpl = crate::member::Ref::with_quirk(&t.env, Mode::Strict, "tpl_number_grammar");
+                        if narrow_tpl.member(d, &jv) != Tri::Yes {
+                            out.mismatch(
+                                ctx,
+                                "c02_member_schema_invalid:tpl_number_grammar",
+                                format!("{} [{}]: exact member {} (by TypeScript's reading of ${{number}}) is not valid against the emitted schema", name, mode, doc),
+                                detail(json!({"doc": doc, "source": src})),
+                            );
+                            continue;
+                        }
                         let repaired = repair_unmerged_allof(root, root);
                         let mut sig = format!("c02_member_schema_invalid{}", feature_suffix_used(&t.env, d, false));
                         let mut through_engine = t.used.contains_key("exclude");
@@ -751,21 +763,49 @@ impl Check for C02 {
     }
 }
 
-/// the emitted schema with one thing changed: members of every `allOf` (>=2 members) lose `additionalProperties: false`
-/// ($ref members are inlined one level first)
+/// the emitted schema with one thing changed: members of every `allOf` (>=2 members) lose `additionalProperties: false`,
+/// at every depth and through references.  References are not inlined (recursive definitions would unfold without
+/// end): every definition reached from such a member gets an open twin `<name>__open` next to it, and the members
+/// refer to the twins.
 pub fn repair_unmerged_allof(v: &Value, root: &Value) -> Value {
+    let mut pending: Vec<String> = vec![];
+    let mut out = repair_walk(v, &mut pending);
+    let mut done: BTreeSet<String> = BTreeSet::new();
+    while let Some(ptr) = pending.pop() {
+        if !done.insert(ptr.clone()) {
+            continue;
+        }
+        let target = match resolve_ptr(root, &ptr) {
+            Some(t) => t.clone(),
+            None => continue,
+        };
+        let twin = open_copy(&target, &mut pending);
+        // insert next to the original (same container, key + "__open")
+        let path = ptr.trim_start_matches('#');
+        if let Some(cut) = path.rfind('/') {
+            let (parent, last) = (&path[..cut], &path[cut + 1..]);
+            let key = format!("{}__open", last.replace("~1", "/").replace("~0", "~"));
+            let holder = if parent.is_empty() { Some(&mut out) } else { out.pointer_mut(parent) };
+            if let Some(Value::Object(m)) = holder {
+                m.insert(key, twin);
+            }
+        }
+    }
+    out
+}
+fn repair_walk(v: &Value, pending: &mut Vec<String>) -> Value {
     match v {
-        Value::Array(a) => Value::Array(a.iter().map(|x| repair_unmerged_allof(x, root)).collect()),
+        Value::Array(a) => Value::Array(a.iter().map(|x| repair_walk(x, pending)).collect()),
         Value::Object(o) => {
             let mut m = Map::new();
             for (k, x) in o {
                 if k == "allOf" && x.as_array().map(|a| a.len() >= 2).unwrap_or(false) {
                     // closedness anywhere inside an unmerged member is the same root cause: an intersection is
                     // taken property by property, at every depth
-                    let members: Vec<Value> = x.as_array().unwrap().iter().map(|mem| strip_closed(mem, root, 10)).collect();
+                    let members: Vec<Value> = x.as_array().unwrap().iter().map(|mem| open_copy(mem, pending)).collect();
                     m.insert(k.clone(), Value::Array(members));
                 } else {
-                    m.insert(k.clone(), repair_unmerged_allof(x, root));
+                    m.insert(k.clone(), repair_walk(x, pending));
                 }
             }
             Value::Object(m)
@@ -773,33 +813,27 @@ pub fn repair_unmerged_allof(v: &Value, root: &Value) -> Value {
         other => other.clone(),
     }
 }
-
-fn strip_closed(v: &Value, root: &Value, ref_fuel: usize) -> Value {
-    let budget = std::cell::Cell::new(30_000usize);
-    strip_closed_b(v, root, ref_fuel, &budget)
-}
-fn strip_closed_b(v: &Value, root: &Value, ref_fuel: usize, budget: &std::cell::Cell<usize>) -> Value {
-    if budget.get() == 0 {
-        return v.clone();
-    }
-    budget.set(budget.get() - 1);
+/// `v` without `additionalProperties: false`, its local references redirected to the open twins (queued in `pending`)
+fn open_copy(v: &Value, pending: &mut Vec<String>) -> Value {
     match v {
-        Value::Array(a) => Value::Array(a.iter().map(|x| strip_closed_b(x, root, ref_fuel, budget)).collect()),
+        Value::Array(a) => Value::Array(a.iter().map(|x| open_copy(x, pending)).collect()),
         Value::Object(o) => {
-            if let Some(r) = o.get("$ref").and_then(|r| r.as_str()) {
-                if ref_fuel > 0 {
-                    if let Some(t) = resolve_ptr(root, r) {
-                        return strip_closed_b(t, root, ref_fuel - 1, budget);
-                    }
-                }
-                return v.clone();
-            }
             let mut m = Map::new();
             for (k, x) in o {
                 if k == "additionalProperties" && x == &Value::Bool(false) {
                     continue;
                 }
-                m.insert(k.clone(), strip_closed_b(x, root, ref_fuel, budget));
+                if k == "$ref" {
+                    if let Some(r) = x.as_str() {
+                        if r.starts_with("#/") && !r.ends_with("__open") {
+                            pending.push(r.to_string());
+                            m.insert(k.clone(), Value::String(format!("{}__open", r)));
+                            continue;
+                        }
+                    }
+                }
+                // (a discriminator mapping lists references as plain strings; it is an annotation for the judge)
+                m.insert(k.clone(), open_copy(x, pending));
             }
             Value::Object(m)
         }
